@@ -59,6 +59,9 @@ def run(chk, F):
 
 def family(chk, F, fam, exact, withp, full, policy):
     # --- *_with_prefix: exact first, then the loop -------------------------------------------------
+    # (the private stages under the names they have today)
+    al = F.stage_aliases()
+    exact, withp, full = al.get((CORE, exact), exact), al.get((CORE, withp), withp), al.get((CORE, full), full)
     # the normalised form: `a.or_else(|| ..)`, `find_map`/`any` closures and private helpers are put back as the match / loop
     # they stand for; the stage functions the rule is about stay calls
     stages = ("::" + exact.split("::")[-1], "::" + withp.split("::")[-1], "::" + full.split("::")[-1])
